@@ -77,6 +77,28 @@ def random_map(rng, names):
     return r
 
 
+def bad_map(rng, names):
+    """a renaming whose result is NOT a valid set of names: a non-identifier, or a collision"""
+    a = rng.choice(names)
+    others = [n for n in names if n != a]
+    kind = rng.choice(["non_identifier", "collision"] if others else ["non_identifier"])
+    if kind == "non_identifier":
+        return {a: rng.choice(["1x", "b c", "", "a-b", "x.y"])}
+    return {a: rng.choice(others)}
+
+
+def one_bad(ctx, doc, g, r):
+    """invalid / colliding new names must be refused (repaired defect F23), never yield a graph"""
+    ctx.count({"graph": show(canon(g.asdict())), "names": r}, True, tags=["invalid_names"])
+    try:
+        g2 = g.rename_demes(r)
+    except Exception:  # noqa: BLE001
+        return {"op": "rename", "graph": enc(g.asdict()), "names": [[a, b] for a, b in r.items()]}
+    ctx.violation("rename_demes returns a graph for invalid or colliding new names", {"document": doc, "names": r},
+                  detail={"names_of_result": [d.name for d in g2.demes]})
+    return None
+
+
 def one(ctx, doc, g, r):
     before = canon(g.asdict())
     idx_before = index_of(g)
@@ -113,8 +135,18 @@ def run(ctx):
         reps = ctx.driver.batch(reqs)
         for g2, rep, dd in zip(outs, reps, docs):
             ctx.compared += 1
-            if not (canon_eq(canon(g2.asdict()), dec(rep["ok"])) and index_of(g2) == rep["index"]):
+            if "ok" not in rep or not (canon_eq(canon(g2.asdict()), dec(rep["ok"])) and index_of(g2) == rep["index"]):
                 ctx.disagreement("rename", dd, {"asdict": show(canon(g2.asdict())), "index": index_of(g2)}, rep)
+        breqs = []
+        for doc, g, _ in batch[::3]:
+            r = bad_map(ctx.rng, [d.name for d in g.demes])
+            q = one_bad(ctx, doc, g, r)
+            if q is not None:
+                breqs.append((q, {"document": doc, "names": r}))
+        for (q, dd), rep in zip(breqs, ctx.driver.batch([q for q, _ in breqs])):
+            ctx.compared += 1
+            if "ok" in rep:
+                ctx.disagreement("rename(invalid names)", dd, "rejected", "accepted")
         check_valid(ctx, outs, "rename_demes", docs)
     if ctx.tier == "thorough":
         # exhaustive: all partial injective maps on small graphs over POOL
